@@ -244,6 +244,10 @@ def _advances_own_time(fn: ast.FunctionDef) -> bool:
             v = R.res(n.value)
             if isinstance(v, ast.BinOp) and isinstance(v.op, ast.Add) and "_event_time" in (self_attr(v.left), self_attr(v.right)):
                 return True
+            # the clock rebuilt from an attribute that the same routine accumulates (self._t += dt; self._event_time = f(self._t))
+            acc = {self_attr(a.target) for a in ast.walk(fn) if isinstance(a, ast.AugAssign) and self_attr(a.target)}
+            if isinstance(v, ast.Call) and any(self_attr(x) in acc for x in ast.walk(v) if isinstance(x, ast.Attribute)):
+                return True
     return False
 
 
